@@ -307,7 +307,7 @@ def tree_facts(x, acc=None):
     """What a tree contains, for form selection and for classifying failures."""
     from hippolyzer.lib.base import llsd
     if acc is None:
-        acc = {"xml_ok": True, "aware": False, "naive": False, "day": False, "uri": False, "nl": False, "vec": False, "usec": False}
+        acc = {"key_amp": False, "xml_ok": True, "aware": False, "naive": False, "day": False, "uri": False, "nl": False, "vec": False, "usec": False}
     if isinstance(x, llsd.uri):
         acc["uri"] = True
         acc["xml_ok"] &= xml_legal(x) and "\r" not in x
@@ -321,6 +321,7 @@ def tree_facts(x, acc=None):
         acc["day"] = True
     elif isinstance(x, dict):
         for k, v in x.items():
+            acc["key_amp"] |= any(c in k for c in "&<>")
             acc["xml_ok"] &= xml_legal(k) and "\r" not in k
             tree_facts(v, acc)
     elif isinstance(x, (list, tuple)):
@@ -423,7 +424,7 @@ def classify_codec(ev, tz, facts):
             classes.add("uri-type-lost")
         elif kind == "leaf" and ta == tb == "date":
             da, db = datetime.datetime(*va), datetime.datetime(*vb)
-            if da - db == datetime.timedelta(microseconds=1) and ev["form"] in ("not", "xml"):
+            if da - db == datetime.timedelta(microseconds=1) and ev["form"] in ("not", "xml", "xmlp"):
                 classes.add("date-usec-truncated")
             elif tz != "UTC" and facts["naive"] and ev["form"] in ("bin", "binh", "zip") and da.microsecond == db.microsecond \
                     and abs(da - db) <= datetime.timedelta(hours=15):
@@ -554,12 +555,11 @@ def _codec_table(chk: Check, big: bool):
         alt_ok += st == "ok" and proj(got) == v
         if v["t"] in ("arr", "map"):
             chk.nontrivial(("row", n))
-        forms = ["bin", "binh", "zip", "not", "xml", "xmlp"]
+        forms = ["bin", "binh", "zip", "not", "xml"]
         # XML cannot carry control characters (third-party formatter drops them): XML-legal rows only
         val = unproj(v)
         if not tree_facts(val)["xml_ok"]:
             forms.remove("xml")
-            forms.remove("xmlp")
         runs_in.append((n, val, forms, {"bin": list(b), "binh": list(b"<?llsd/binary?>\n" + b), "zip": list(b), "not": list(nt)}))
     chk.cov["traces_validated_against_impl"] += len(rows)
     chk.notes.append("alternative notation syntax rows accepted by the real parser (informational, not part of the property): %d/%d" % (alt_ok, alt_n))
@@ -601,7 +601,13 @@ def _codec(chk: Check, big: bool, n_trees: int, depth: int):
         if not facts["aware"]:
             forms.append("not")
             if facts["xml_ok"]:
-                forms += ["xml", "xmlp"] if i % 2 else ["xml"]
+                forms.append("xml")
+                # pretty XML is outside the property's forms; it is exercised for the sniffing dispatcher only, on trees the
+                # third-party pretty formatter can write (it does not escape & < > in map KEYS: tallied, not judged)
+                if facts["key_amp"]:
+                    chk.cov["pretty_xml_skipped_key_needs_escaping"] = chk.cov.get("pretty_xml_skipped_key_needs_escaping", 0) + 1
+                elif i % 2:
+                    forms.append("xmlp")
         trees.append((100000 + i, val, forms))
     facts_of = {tid: tree_facts(val) for tid, val, _ in table_items + trees}
     for part in common.chunked(trees, 16):
@@ -1325,6 +1331,8 @@ def run(chk: Check):
         "floats are NaN-free; ints are within S32 (LLSD integer range)",
         "map keys and URIs contain no control characters (the newline clause speaks of string values)",
         "XML form only for XML-legal text without CR (XML line-end normalisation)",
+        "llsd.parse() (content sniffing) is given every self-announcing document the real formatters emit: binary with header, "
+        "notation, XML, pretty XML (pretty XML only for trees whose map keys need no XML escaping)",
         "message profiles: a Variable block may have zero instances; a suffix of the template's blocks may be omitted altogether "
         "(trailing blocks are routinely omitted; an addon-built message may lack them); 'other' = a message of the next template",
         "messages: built from the template with plain Python values; every third one is additionally passed through the library's own UDP encoder/decoder first (values as the proxy holds them)",
